@@ -104,6 +104,9 @@ def norm_name(full):
     if r is None:
         r = _strip_turbofish(full)
         r = re.sub(r"\b(core|alloc)::", "std::", r)
+        # inherent impls on primitives print relative to the using crate (`terraswap_pair::core::bool::<impl bool>::then`)
+        r = re.sub(r"\b[a-z_][a-z_0-9]*::std::", "std::", r)
+        r = r.replace("::<impl bool>", "").replace("::<impl u64>", "").replace("::<impl u128>", "")
         _MN_CACHE[full] = r
     return r
 
